@@ -523,11 +523,15 @@ func scaledScenarios() []hx.Scenario {
 					min = 3
 				}
 				add(s, true, min, min+3, !quick)
-				// preemption bounding for the very smallest
-				if len(ss) == 1 && nv == 1 {
-					add(s, false, 2, 2, false)
-				} else if small {
-					add(s, false, 1, 1, false)
+				// preemption bounding (choices among forced candidates are
+				// free: factorial in the number of threads) for the very smallest
+				if len(ss) == 1 && !ss[0].late {
+					switch {
+					case nv == 1 && c < 0:
+						add(s, false, 2, 2, false)
+					case nv == 1, len(shape) == 1 && nv == 2, nv == 2 && c < 0:
+						add(s, false, 1, 1, false)
+					}
 				}
 			}
 		}
